@@ -1,9 +1,80 @@
 import Iox2.Model.WaitSet
 import Driver.Util
 namespace Driver.WaitSetD
-open Driver
+open Iox2.WaitSet Driver
 
-def stepLine (s : Unit) (_t : List String) : Unit × String := (s, "unimplemented")
+def parse (t : List String) : Option Op :=
+  match t with
+  | ["attach_n", g, l] => some (.attachN (nat! g) (nat! l))
+  | ["attach_d", g, l, p] => some (.attachD (nat! g) (nat! l) (nat! p))
+  | ["attach_i", g, p] => some (.attachI (nat! g) (nat! p))
+  | ["drop_guard", g] => some (.dropGuard (nat! g))
+  | ["notify", l, id] => some (.notify (nat! l) (nat! id))
+  | ["notify_all", sv, id] => some (.notifyAll (nat! sv) (nat! id))
+  | ["drain", l] => some (.drain (nat! l))
+  | ["run_once"] => some .runOnce
+  | ["advance", k] => some (.advance (nat! k))
+  | ["len"] => some .len
+  | ["capacity"] => some .capacity
+  | ["is_empty"] => some .isEmpty
+  | _ => none
 
-def comp : Comp := { σ := Unit, init := (), step := stepLine }
+def kindCode : Kind → Nat
+  | .d => 0
+  | .n => 1
+  | .t => 2
+
+def kindChar : Kind → String
+  | .d => "d"
+  | .n => "n"
+  | .t => "t"
+
+def leRep (a b : Nat × Kind) : Bool := a.1 < b.1 || (a.1 == b.1 && kindCode a.2 ≤ kindCode b.2)
+
+def insertRep (x : Nat × Kind) : List (Nat × Kind) → List (Nat × Kind)
+  | [] => [x]
+  | y :: ys => if leRep x y then x :: y :: ys else y :: insertRep x ys
+
+def showReports (r : List (Nat × Kind)) : String :=
+  "[" ++ joinWith "," ((r.foldl (fun acc x => insertRep x acc) []).map (fun e => toString e.1 ++ ":" ++ kindChar e.2)) ++ "]"
+
+def render : Out → String
+  | .ok => "ok"
+  | .dup => "dup"
+  | .none => "none"
+  | .attachErr .InsufficientCapacity => "err:InsufficientCapacity"
+  | .attachErr .AlreadyAttached => "err:AlreadyAttached"
+  | .noAttachments => "err:NoAttachments"
+  | .reports r => "ok:AllEventsHandled:" ++ showReports r
+  | .foreign ids r => "ok:AllEventsHandled:" ++ showReports r ++ "+foreign" ++ toString ids.length
+  | .notified k => "ok:" ++ toString k
+  | .eventIdOutOfBounds => "err:EventIdOutOfBounds"
+  | .drained ids => "[" ++ joinWith "," (ids.map (fun e => toString e.1 ++ "*" ++ toString e.2)) ++ "]"
+  | .nat k => toString k
+  | .bool b => toString b
+
+/-- `fill base n p`: interval attachments with labels base, base+1, …; stops at the first refusal -/
+def fill (s : State) (base p : Nat) : Nat → Nat → State × String
+  | 0, done => (s, toString done ++ ":ok")
+  | fuel + 1, done =>
+    let (s', out) := step s (.attachI (base + done) p)
+    match out with
+    | .ok => fill s' base p fuel (done + 1)
+    | o => (s', toString done ++ ":" ++ render o)
+
+def stepLine (w : Option State) (t : List String) : Option State × String :=
+  match t with
+  | ["new", variant, cap, nl, ns] =>
+      (some (State.init (nat! cap) (variant != "ipc") (nat! nl) (nat! ns) 7), "ok")
+  | ["fill", base, n, p] =>
+    match w with
+    | none => (none, "no-world")
+    | some s => let (s', out) := fill s (nat! base) (nat! p) (nat! n) 0; (some s', out)
+  | _ =>
+    match w, parse t with
+    | none, _ => (none, "no-world")
+    | _, none => (w, "bad-op")
+    | some s, some op => let (s', out) := step s op; (some s', render out)
+
+def comp : Comp := { σ := Option State, init := none, step := stepLine }
 end Driver.WaitSetD
